@@ -1,6 +1,6 @@
 //! Compile-time decision of C19: this crate type-checks iff every client type is `Send + Sync` and
 //! every future returned by the async clients' constructor and query methods is `Send`, for all 17
-//! record-data types and non-'static borrowed arguments. It is only ever `cargo check`ed.
+//! record-data types — each of them, and generically in `D: RData` — and non-'static borrowed arguments. It is only ever `cargo check`ed.
 #![allow(dead_code, clippy::all)]
 
 use rsdns::clients::ClientConfig;
@@ -48,6 +48,17 @@ macro_rules! async_client_checks {
                 send(c.query_rrset::<Minfo>(name, Class::IN));
                 send(c.query_rrset::<Mx>(name, Class::IN));
                 send(c.query_rrset::<Txt>(name, Class::IN));
+            }
+
+            /// "for all record-data types", stated once and for all: a caller generic over the data
+            /// type (bounded by the sealed marker `RData` only — nothing says `D: Send`) gets a `Send`
+            /// future, and can run the whole lookup inside a spawned task as long as no `D` leaves it
+            pub fn typed_generic<'a, D: RData>(c: &'a mut Client, name: &'a str) {
+                send(c.query_rrset::<D>(name, Class::IN));
+            }
+
+            pub fn spawnable_generic<D: RData + 'static>(mut c: Client, name: String) -> impl std::future::Future<Output = usize> + Send + 'static {
+                async move { c.query_rrset::<D>(&name, Class::IN).await.map(|s| s.rdata.len()).unwrap_or(0) }
             }
 
             /// the use case release 0.19.0 was made for: a query inside a task spawned on a
